@@ -37,6 +37,15 @@ SPEC = [
     ("nm_tol_f", "quantecon/optimize/nelder_mead.py", "default", ("nelder_mead", "tol_f")),
     ("nm_tol_x", "quantecon/optimize/nelder_mead.py", "default", ("nelder_mead", "tol_x")),
     ("nm_max_iter", "quantecon/optimize/nelder_mead.py", "default", ("nelder_mead", "max_iter")),
+    ("ddp_epsilon", "quantecon/markov/ddp.py", "assign_in", ("DiscreteDP.__init__", "self.epsilon")),
+    ("ddp_max_iter", "quantecon/markov/ddp.py", "assign_in", ("DiscreteDP.__init__", "self.max_iter")),
+    ("player_tol", "quantecon/game_theory/normal_form_game.py", "assign_in", ("Player.__init__", "self.tol")),
+    ("brent_max_sqrt_eps", "quantecon/optimize/scalar_maximization.py", "assign_in", ("brent_max", "sqrt_eps")),
+    ("brent_max_golden_mean", "quantecon/optimize/scalar_maximization.py", "assign_in", ("brent_max", "golden_mean")),
+    ("nm_core_rho", "quantecon/optimize/nelder_mead.py", "default", ("_nelder_mead_algorithm", "ρ")),
+    ("nm_core_chi", "quantecon/optimize/nelder_mead.py", "default", ("_nelder_mead_algorithm", "χ")),
+    ("nm_core_gamma", "quantecon/optimize/nelder_mead.py", "default", ("_nelder_mead_algorithm", "γ")),
+    ("nm_core_sigma", "quantecon/optimize/nelder_mead.py", "default", ("_nelder_mead_algorithm", "σ")),
 ]
 
 import numpy as _np
@@ -88,6 +97,14 @@ def read_const(file, kind, spec):
             if p.arg == arg and d is not None:
                 return _eval_default(d, tree)
         raise KeyError("%s:%s.%s" % (file, func, arg))
+    if kind == "assign_in":
+        func, target = spec
+        f = _find_func(tree, func)
+        hits = [n for n in ast.walk(f) if isinstance(n, ast.Assign) and len(n.targets) == 1
+                and ast.unparse(n.targets[0]) == target]
+        if len(hits) != 1:
+            raise KeyError("%s:%s assigns %s %d times" % (file, func, target, len(hits)))
+        return _eval(hits[0].value)
     raise ValueError(kind)
 
 
@@ -140,8 +157,10 @@ def main():
     os.makedirs(os.path.dirname(OUT), exist_ok=True)
     old = open(OUT).read() if os.path.exists(OUT) else None
     if old != text:
-        with open(OUT, "w") as f:
+        tmp = OUT + ".tmp%d" % os.getpid()
+        with open(tmp, "w") as f:
             f.write(text)
+        os.replace(tmp, OUT)   # atomic: concurrent checks never see a half-written file
     return vals
 
 
